@@ -5,7 +5,7 @@
    through the inserted rows. *)
 From Coq Require Import List NArith ZArith QArith Qcanon Bool Lia Permutation.
 From ACB Require Import Base.Outcome Base.QcExtra Base.Fit Base.Arith Model.Tx Model.Ledger Model.Sfl
-     Model.DeltaList Spec.AvgCost Proofs.Tactics Proofs.EraseRi Proofs.C15Scale Proofs.C02Scan Proofs.C15Run Proofs.C01Refine Proofs.C04Inv Proofs.C04Sum Proofs.C04Reject.
+     Model.DeltaList Spec.AvgCost Proofs.Tactics Proofs.EraseRi Proofs.C15Scale Proofs.C02Scan Proofs.C15Run Proofs.C01Refine Proofs.C04Inv Proofs.C04Sum Proofs.C04Reject Proofs.AllAfter.
 Import ListNotations.
 Local Open Scope Qc_scope.
 
@@ -330,14 +330,14 @@ Section Sim.
     set_latest exact st af v = Ok st1 ->
     obs st1 af2 = if N.eqb (af_id af2) (af_id af) then (s_sh v, s_acb v) else obs st af2.
   Proof.
-    unfold set_latest. cbn [a_add a_sub exact bind]. intros H.
+    unfold set_latest. rewrite all_after_exact. cbn [bind]. intros H.
     destruct (negb (Bool.eqb _ _)); [discriminate|]. destruct (negb (Qceqb _ _)); [discriminate|].
     inversion H; subst st1; clear H. unfold obs, latest_for. cbn [ps_map]. rewrite alookup_aupdate.
     destruct (N.eqb (af_id af2) (af_id af)); reflexivity.
   Qed.
   Lemma set_latest_all st af v st1 : set_latest exact st af v = Ok st1 -> ps_all st1 = s_all v /\ lp st1 = s_all v.
   Proof.
-    unfold set_latest. cbn [a_add a_sub exact bind]. intros H.
+    unfold set_latest. rewrite all_after_exact. cbn [bind]. intros H.
     destruct (negb (Bool.eqb _ _)); [discriminate|]. destruct (negb (Qceqb _ _)); [discriminate|].
     inversion H; subst st1; clear H. unfold lp, latest_post_status, latest_for. cbn [ps_map ps_all ps_latest].
     rewrite alookup_aupdate, N.eqb_refl. split; reflexivity.
@@ -350,9 +350,9 @@ Section Sim.
     destruct (set_latest exact st af v) as [st1| |] eqn:E1;
       destruct (set_latest exact st' af (sc_status f v)) as [st1'| |] eqn:E2.
     all: cbn [res_rel].
-    all: try (exfalso; revert E1 E2; unfold set_latest; cbn [a_add a_sub exact bind sc_status s_sh s_all s_acb];
+    all: try (exfalso; revert E1 E2; unfold set_latest; rewrite !all_after_exact; cbn [bind sc_status s_sh s_all s_acb];
               rewrite !obs_fst, Ho, Ha; cbn [fst];
-              assert (E : s_sh v * f + ps_all st * f - fst (obs st af) * f = (s_sh v + ps_all st - fst (obs st af)) * f) by ring;
+              assert (E : ps_all st * f + (s_sh v * f - fst (obs st af) * f) = (ps_all st + (s_sh v - fst (obs st af))) * f) by ring;
               rewrite E, (eqb_sc f Hf);
               destruct (negb (Bool.eqb _ _)); [intros; congruence|];
               destruct (negb (Qceqb _ _)); intros; congruence).
@@ -364,9 +364,9 @@ Section Sim.
         destruct (N.eqb (af_id af2) (af_id af)); [reflexivity | apply Ho].
       + intros af2 Hg. rewrite (obs_set _ _ _ _ af2 E1), (obs_set _ _ _ _ af2 E2).
         destruct (N.eqb (af_id af2) (af_id af)); [reflexivity | apply Ho2; exact Hg].
-    - revert E1 E2; unfold set_latest; cbn [a_add a_sub exact bind sc_status s_sh s_all s_acb];
+    - revert E1 E2; unfold set_latest; rewrite !all_after_exact; cbn [bind sc_status s_sh s_all s_acb];
         rewrite !obs_fst, Ho, Ha; cbn [fst].
-      assert (E : s_sh v * f + ps_all st * f - fst (obs st af) * f = (s_sh v + ps_all st - fst (obs st af)) * f) by ring.
+      assert (E : ps_all st * f + (s_sh v * f - fst (obs st af) * f) = (ps_all st + (s_sh v - fst (obs st af))) * f) by ring.
       rewrite E, (eqb_sc f Hf).
       destruct (negb (Bool.eqb _ _)); [intros; congruence|].
       destruct (negb (Qceqb _ _)); intros; congruence.
@@ -779,7 +779,7 @@ Section InvS.
 
   Lemma set_latest_flag st af v st1 : set_latest exact st af v = Ok st1 -> is_none (s_acb v) = af_reg af.
   Proof.
-    unfold set_latest; cbn [a_add a_sub exact bind].
+    unfold set_latest; rewrite all_after_exact; cbn [bind].
     destruct (Bool.eqb (af_reg af) (is_none (s_acb v))) eqn:E; cbn [negb]; [|discriminate].
     intros _. symmetry. apply Bool.eqb_prop. exact E.
   Qed.
@@ -907,13 +907,14 @@ Section SplitPhase.
       destruct (Qceqb_spec pr 0) as [|_]; [contradiction|]. cbn [bind].
       assert (E1 : sh * po / pr = sh * f) by (rewrite <- Ef; field; exact Hpr). rewrite E1.
       unfold gez_unwrap. destruct (Qcleb_spec 0 (sh * f)) as [_|Hn]; [|contradiction].
-      cbn [bind]. destruct (Qcltb_spec (ps_all st + (sh * f - sh)) 0) as [Hlt|_].
+      cbn [bind]. rewrite all_after_exact. cbn [bind].
+      destruct (Qcltb_spec (ps_all st + (sh * f - sh)) 0) as [Hlt|_].
       { exfalso. remember (sh * f) as y. remember (ps_all st) as al. clear - Hlt Hshf Hshall. qc_lra. }
       rewrite andb_false_r. cbn [andb]. reflexivity. }
     assert (Es : exists st1, set_latest exact st (t_af x) (d_post d) = Ok st1).
-    { unfold set_latest. cbn [a_add a_sub exact bind d d_post mk_delta s_sh s_all s_acb].
+    { unfold set_latest. rewrite all_after_exact. cbn [a_add a_sub exact bind d d_post mk_delta s_sh s_all s_acb].
       rewrite obs_fst, <- Esh, Hflag, Bool.eqb_reflx. cbn [negb].
-      destruct (Qceqb_spec (ps_all st + (sh * f - sh)) (sh * f + ps_all st - sh)) as [_|Hn]; [|exfalso; apply Hn; ring].
+      destruct (Qceqb_spec (ps_all st + (sh * f - sh)) (ps_all st + (sh * f - sh))) as [_|Hn]; [|exfalso; apply Hn; ring].
       cbn [negb]. eexists. reflexivity. }
     destruct Es as [st1 Es]. exists d, st1. split; [exact Ed|]. split; [exact Es|].
     split; [reflexivity|]. split; [reflexivity|]. split; [reflexivity|]. split; [reflexivity|].
